@@ -17,6 +17,8 @@ def setup(pid, tier, level, features=None, overflow=True):
     run.coverage_extra["tree_hash"] = doc["_info"]["tree_hash"][:16]
     run.coverage_extra["config"] = doc["_info"]["config"]
     run.coverage_extra["evaluators"] = sorted(models)
+    from ..premises import trait_impls
+    trait_impls(run, F, pid)
     return run, F, models
 
 
